@@ -1,7 +1,7 @@
 (* Top-level entry points of the chain model as the harness calls them, and the rendering of a
    constructed chain to a `value` for comparison with what the implementation exposes. *)
 From Coq Require Import String Ascii List Bool Arith ZArith.
-From TC Require Import PyStr Value Dict Placeholder Repr Param Names Config Key Chain Sha256 Eval.
+From TC Require Import PyStr Value Dict Placeholder Repr Param Names Config Key Chain Graph Sha256 Eval.
 Import ListNotations.
 
 Definition world_t_note := tt.
@@ -49,6 +49,22 @@ Fixpoint build_multi (H : str -> str) (w : world) (bases : list (str + (str * cf
       end
   end.
 
+(* ---- the dependency graph of a chain: an arc from every input task object to its dependant ---- *)
+Definition input_edge (objs : list obj) (a b : nat) : bool :=
+  match nth_error objs b with
+  | Some o => existsb (fun inp => match snd inp with inl k => Nat.eqb k a | inr _ => false end) (o_inputs o)
+  | None => false
+  end.
+Definition chain_nodes (tasks : list (str * nat)) : list nat := nodup Nat.eq_dec (map snd tasks).
+
+(* Chain.dependent_tasks / required_tasks / is_task_dependent_on on object ids *)
+Definition dependent_tasks (objs : list obj) (tasks : list (str * nat)) (x : nat) (include_self : bool) : list nat :=
+  (if include_self then [x] else []) ++ descendants (input_edge objs) (chain_nodes tasks) x.
+Definition required_tasks (objs : list obj) (tasks : list (str * nat)) (x : nat) (include_self : bool) : list nat :=
+  (if include_self then [x] else []) ++ ancestors (input_edge objs) (chain_nodes tasks) x.
+Definition is_task_dependent_on (objs : list obj) (tasks : list (str * nat)) (task dependency : nat) : bool :=
+  has_path (input_edge objs) (chain_nodes tasks) dependency task.
+
 (* ---- rendering ---- *)
 Definition canon_name (tasks : list (str * nat)) (id : nat) : str :=
   match isort str_leb (map fst (filter (fun t => Nat.eqb (snd t) id) tasks)) with
@@ -93,4 +109,25 @@ Definition golden_paths (w : world) (base : str + (str * cfgdata)) : option (lis
                                            | None => [] end
                                | None => [] end) (rc_tasks rc))
   | inr _ => None
+  end.
+
+(* queries on a built chain: (kind, a, b, include_self) with kind 0 = dependent_tasks a, 1 = required_tasks a,
+   2 = is_task_dependent_on a b; answers as sorted canonical names *)
+Definition render_query (rc : rchain) (objs : list obj) (q : nat * str * str * bool) : value :=
+  let '(kind, a, b, inc) := q in
+  let names ids := VList (map VStr (isort str_leb (map (canon_name (rc_tasks rc)) ids))) in
+  match dget a (rc_tasks rc), dget b (rc_tasks rc) with
+  | Some x, Some y =>
+      match kind with
+      | 0 => names (dependent_tasks objs (rc_tasks rc) x inc)
+      | 1 => names (required_tasks objs (rc_tasks rc) x inc)
+      | _ => VBool (is_task_dependent_on objs (rc_tasks rc) x y)
+      end
+  | _, _ => VStr (lit "error")
+  end.
+
+Definition render_build_queries (r : res (rchain * list obj * registry)) (qs : list (nat * str * str * bool)) : value :=
+  match r with
+  | inl (rc, objs, _) => VList [render_chain rc objs; VList (map (render_query rc objs) qs)]
+  | inr _ => VStr (lit "error")
   end.
